@@ -33,11 +33,11 @@ def ulp_close(got, exact_int):
     return abs(got - exp) <= abs(exp) * 2.3e-16
 
 
-def num_pred(exact_int, digits):
+def num_pred(exact_int, digits, exact_upto=15):
     def pred(r):
         if r.cls != "value":
             return "expected a number, got %s %s" % (r.cls, r.kind)
-        if digits <= 15:
+        if digits <= exact_upto:
             if r.value != float(exact_int):
                 return "inexact result for a <= 15 digit input: %r" % (r.value,)
         elif not ulp_close(r.value, exact_int):
@@ -67,14 +67,17 @@ def gen_num_cases(rng, n):
             if v >= 10 ** 308:
                 yield ("parseOctal_huge", "std.parseOctal(%s)" % J(d), Any())
             else:
-                yield ("parseOctal", "std.parseOctal(%s)" % J(d), num_pred(v, len(str(v))))
+                # up to 42 octal / 32 hex significant digits fit the 128-bit accumulator: correctly rounded
+                sig = len(d.lstrip("0"))
+                yield ("parseOctal", "std.parseOctal(%s)" % J(d), num_pred(v, sig, exact_upto=42))
         elif fam == 2:
             d = "".join(rng.choice("0123456789abcdefABCDEF") for _ in range(min(nd, 250)))
             v = int(d, 16)
             if v >= 10 ** 308:
                 yield ("parseHex_huge", "std.parseHex(%s)" % J(d), Any())
             else:
-                yield ("parseHex", "std.parseHex(%s)" % J(d), num_pred(v, len(str(v))))
+                sig = len(d.lstrip("0"))
+                yield ("parseHex", "std.parseHex(%s)" % J(d), num_pred(v, sig, exact_upto=32))
         elif fam == 3:
             # a non-digit at a random position (every position over the run) of a digit string
             f, alphabet = rng.choice([("parseInt", "0123456789"), ("parseOctal", "01234567"),
@@ -96,6 +99,14 @@ def gen_num_cases(rng, n):
             yield (f + "_nondigit", "std.%s(%s)" % (f, J(s)), Err())
             agg_pos = pos  # noqa: F841
         elif fam == 4:
+            # rounding ties in the leading digits with a later non-zero digit (must round up)
+            e = rng.randint(0, 10)
+            hx_ = "8" + "0" * rng.randint(12, 14) + "4" + "0" * rng.randint(0, 6) + rng.choice("123f") + "0" * e
+            if len(hx_) <= 32:
+                yield ("parseHex_tie", "std.parseHex(%s)" % J(hx_), num_pred(int(hx_, 16), len(hx_), exact_upto=32))
+            oc_ = "1" + "0" * rng.randint(16, 19) + "2" + "0" * rng.randint(0, 6) + rng.choice("1234567") + "0" * e
+            if len(oc_) <= 42:
+                yield ("parseOctal_tie", "std.parseOctal(%s)" % J(oc_), num_pred(int(oc_, 8), len(oc_), exact_upto=42))
             for f in ("parseInt", "parseOctal", "parseHex"):
                 yield (f + "_empty", "std.%s(\"\")" % f, Err())
             yield ("parseInt_minus_only", "std.parseInt(\"-\")", Err())
